@@ -220,6 +220,9 @@ class VdiHuge(IoSuite):
             ent = {b: rng.weighted([((1 << 31) - 1 - j, 3), (j * 3 + 1, 2)]) for j, b in enumerate(alloc)}
             size = nblocks * bs - rng.pick([0, 512 * 77])
             data_offset = 512 + 4 * nblocks + (-(4 * nblocks)) % 512
+            # the data area need not start right behind the block map (reserved / relocated map area): what lies between
+            # is nobody's business at open time
+            data_offset += [0, 0, 64 * MB, 768 * MB][i % 4]
             c = {"kind": "plain", "size": size, "block_size": bs, "nblocks": nblocks, "ent": sorted(ent.items()),
                  "blocks_offset": 512, "data_offset": data_offset, "file_size": data_offset + (1 << 31) * bs,
                  "salt": rng.randrange(1 << 30), "alloc_k": k}
